@@ -183,7 +183,9 @@ def equation_of_motion(mdl: M.Model, tr, dts, out, pid='C03', init_speed=None):
                         f'x dt {dt!r} = {wstar!r}'))
             break
         pinc = wstar * dt
-        if not abs(th[k] - (th[k - 1] + pinc)) <= 64 * EPS * (abs(th[k - 1]) + abs(pinc)) + 1e-9 * abs(pinc):
+        # the advanced speed carries the rounding of its own update (visible when w[k-1] and a[k-1] dt cancel)
+        werr = 64 * EPS * (abs(w[k - 1]) + abs(inc))
+        if not abs(th[k] - (th[k - 1] + pinc)) <= 64 * EPS * (abs(th[k - 1]) + abs(pinc)) + 1e-9 * abs(pinc) + werr * dt:
             out.append((f'{pid}/position-update',
                         f'instant {k}: position {th[k]!r}, expected previous {th[k - 1]!r} + advanced speed '
                         f'{wstar!r} x dt {dt!r} = {th[k - 1] + pinc!r}'))
